@@ -104,6 +104,27 @@ package posix
 //@   at-call posix.Posix.storeChecksums {C06} [checksums-after-body] requires bodyRead
 //@   at-call posix.tmpfile.link {C06} [publication-after-body] requires bodyRead
 //@   at-call posix.tmpfile.link {C06} [published-only-with-exactly-the-declared-bytes] requires result("io.Copy", 0) == declared
+// C06: every x-amz-checksum-* value the request supplies is verified over the bytes copied, whatever the upload was
+// created with: each supplied value gets a hashing reader of its own algorithm with that value, stacked on the chain,
+// and the part is copied from the top of that chain
+//@   let supplied = input.ChecksumCRC32 != nil || input.ChecksumCRC32C != nil || input.ChecksumSHA1 != nil || input.ChecksumSHA256 != nil || input.ChecksumCRC64NVME != nil
+//@   loop 1 invariant {C06} [bounds] -1 <= rangeindex && rangeindex < len(hashConfigs)
+//@   loop 1 invariant {C06} [the-table-lists-the-five-supplied-values] len(hashConfigs) == 5 \
+//@        && hashConfigs[0].value == input.ChecksumCRC32 && hashConfigs[0].hashType == utils.HashTypeCRC32 \
+//@        && hashConfigs[1].value == input.ChecksumCRC32C && hashConfigs[1].hashType == utils.HashTypeCRC32C \
+//@        && hashConfigs[2].value == input.ChecksumSHA1 && hashConfigs[2].hashType == utils.HashTypeSha1 \
+//@        && hashConfigs[3].value == input.ChecksumSHA256 && hashConfigs[3].hashType == utils.HashTypeSha256 \
+//@        && hashConfigs[4].value == input.ChecksumCRC64NVME && hashConfigs[4].hashType == utils.HashTypeCRC64NVME
+//@   loop 1 invariant {C06} [a-supplied-checksum-has-its-reader] forall j int :: 0 <= j && j <= rangeindex && hashConfigs[j].value != nil ==> hashRdr != nil
+//@   loop 1 invariant {C06} [the-chain-ends-in-the-last-reader] hashRdr != nil ==> tr == iface(hashRdr)
+//@   at-call utils.NewHashReader {C06} [stacked-on-the-chain-with-the-supplied-value] requires $0 == tr && (\
+//@        ($2 == utils.HashTypeCRC32 && input.ChecksumCRC32 != nil && $1 == *input.ChecksumCRC32) || \
+//@        ($2 == utils.HashTypeCRC32C && input.ChecksumCRC32C != nil && $1 == *input.ChecksumCRC32C) || \
+//@        ($2 == utils.HashTypeSha1 && input.ChecksumSHA1 != nil && $1 == *input.ChecksumSHA1) || \
+//@        ($2 == utils.HashTypeSha256 && input.ChecksumSHA256 != nil && $1 == *input.ChecksumSHA256) || \
+//@        ($2 == utils.HashTypeCRC64NVME && input.ChecksumCRC64NVME != nil && $1 == *input.ChecksumCRC64NVME) || \
+//@        ($1 == "" && !supplied))
+//@   at-call io.Copy {C06} [every-supplied-checksum-is-verified-over-the-bytes-copied] requires supplied ==> hashRdr != nil && $1 == iface(hashRdr)
 
 // ---- C16: bucket deletion and listing -----------------------------------------------------------
 //@ func (*Posix) versioningEnabled
